@@ -113,7 +113,13 @@ pub fn random_form_over(rng: &mut Rng, vars: &[String], depth: usize, quant: (u6
                 0 => Form::All(g),
                 1 => Form::Any(g),
                 2 => Form::NoneOf(g),
-                _ => Form::N(rng.below(4) as u64, g),
+                _ => {
+                    if rng.chance(1, 12) {
+                        Form::NBig(rng.pick(&["18446744073709551616", "99999999999999999999999999", "18446744073709551615"]).to_string(), g)
+                    } else {
+                        Form::N(rng.below(4) as u64, g)
+                    }
+                }
             };
         }
         if rng.chance(unknown.0, unknown.1) || vars.is_empty() {
@@ -169,6 +175,9 @@ pub fn random_rule(rng: &mut Rng, cfg: &Cfg, name: &str, earlier: &[String]) -> 
             Operand::Rule(rng.pick(earlier).clone())
         } else if rng.chance(cfg.bad_ref_prob.0, cfg.bad_ref_prob.1) {
             Operand::Rule(rng.pick(&["nope", name, "later"]).to_string())
+        } else if cfg.err_ops && rng.chance(1, 60) {
+            // text the grammar does not derive: keywords in another letter case, a stray token
+            Operand::Raw(format!(".f0 {} {}", rng.pick(&["is", "=="]), rng.pick(&["None", "Some", "TRUE", "False", "nOne", "NONE"])))
         } else if rng.chance(1, 12) {
             Operand::Indirect { a: field_segs(rng), b: field_segs(rng), is: rng.chance(1, 2) }
         } else {
